@@ -1,7 +1,7 @@
 # Native witness for C10/C16 on the S3 cassette (fake bucket behind the REAL facade and cassette): default empty key prefix,
 # prefixes ending in 'metadata', time windows across midnight.  exit 0 = holds on this workload, 1 = violated.
 import sys, datetime
-sys.path.insert(0, '/repo') if '/repo' not in sys.path else None
+sys.path.insert(0, __import__('os').environ.get('PYVC_REPO', '/repo'))
 sys.path.insert(0, '/verif/replay')
 import fake_boto3
 fake_boto3.install()
